@@ -146,6 +146,17 @@ register("C03", "proof",
          TB + "opcode meaning (PV.Fold.icAlu on whole numbers, PV.IC10.FloatSem on binary64) is a trusted specification; transcendental functions use this machine's libm on both sides.",
          "Lean 4 proof over regenerated operator tables (translator) + fold-vs-runtime experiment on real outputs", "DESIGN.md §4 C03")
 
+register("C11", "proof",
+         "Lean theorems over the process model PV.Process (cells that survive a call: output mode, constexpr memo, prefab hash set; the passes an uninterpreted deterministic function of source, options, mode, "
+         "evaluator and hash set): history_independent — for EVERY sequence of requests served by one process the i-th result equals the result of the i-th request in a fresh process; step_result_fresh and "
+         "step_inv (invariant: the memo only holds values a fresh evaluation gives; the hash set, once filled, is the constant); mode_is_set_from_options. The model's completeness — that no other module-level "
+         "state carries over — is checked on every run by a global-state census: every module-level object of every loaded stationeers_pytrapic module is fingerprinted around each compile_code call of generated "
+         "histories and the set of cells that ever change must be contained in the three modelled ones. Histories (mode-sensitive sources, errors, pragmas, constexpr functions with equal call text and "
+         "different bodies, module dicts, repeats) are also compared with fresh interpreter processes under random PYTHONHASHSEED; the options object and the source mapping must come back unmodified. "
+         "Hash-seed dependent register numbering with several library modules is known finding F-C11-b.",
+         TB + "astroid / CPython internal caches are outside the census (seen only through the fresh-process comparison).",
+         "Lean 4 proof (invariant + induction over request histories) + global-state census + history/fresh-process correspondence", "DESIGN.md §4 C11")
+
 ALL = [f"C{i:02d}" for i in range(1, 19)]
 
 
